@@ -89,6 +89,40 @@ func runC18(c *Ctx) {
 	}
 	r.Check(okPrefix, "R18.1b", "Message prefix", "-", "template emits `type Message<Name>` with a pointer-receiver GetID; runtime requires the prefix", "the message template no longer declares `type Message{{ .Msg.Name }} struct` with `func (*Message…) GetID() uint32`, or the runtime prefix test changed")
 
+	// R18.1c: mavlen only for char arrays
+	r.Rule("R18.1c", "array-length tag: processField writes the `mavlen` tag only with the length matched by the `type[N]` pattern (a scalar `char` stays a bare string: the runtime hashes a length byte into CRC_EXTRA for every tagged string, the spec only for arrays)", 1)
+	if pf := c.Fn("pkg/conversion", "processField"); pf != nil {
+		var probs []string
+		n := 0
+		for _, in := range allInstrs(pf) {
+			mu, ok := in.(*ssa.MapUpdate)
+			if !ok || ex(mu.Key) != "\"mavlen\"" {
+				continue
+			}
+			n++
+			seen := map[ssa.Value]bool{}
+			var walk func(x ssa.Value)
+			walk = func(x ssa.Value) {
+				if seen[x] {
+					return
+				}
+				seen[x] = true
+				if p, isPhi := x.(*ssa.Phi); isPhi {
+					for _, e := range p.Edges {
+						walk(e)
+					}
+					return
+				}
+				if s := ex(x); !(strings.Contains(s, "FindStringSubmatch(") && strings.HasSuffix(s, "[2]")) {
+					probs = append(probs, "mavlen ← "+shortErr(x)+" ("+c.Pos(mu.Pos())+"): the tag is not (only) the length matched from `type[N]`; a scalar char would be generated as an array of one and its CRC_EXTRA would hash a length byte the spec does not")
+				}
+			}
+			walk(mu.Value)
+		}
+		sort.Strings(probs)
+		r.Check(len(probs) == 0 && n > 0, "R18.1c", "processField mavlen", c.Pos(pf.Pos()), "mavlen ← N of `char[N]` only", orStr(strings.Join(probs, "; "), "processField never writes the mavlen tag"))
+	}
+
 	// R18.2 name inversion
 	r.Rule("R18.2", "name conversion: conversion.dialectNameGoToDef and message.fieldGoToDef compute the same function (regexp \"([A-Z])\" → \"_${1}\", drop first, lower-case); dialectNameDefToGo is lower-case, then upper-case the letter after each \"_[a-z]\" match, "+
 		"capitalise the first letter (digits keep their underscore, so the runtime's msgGoToDef / fieldGoToDef invert it); processField emits mavname exactly when dialectNameGoToDef(dialectNameDefToGo(name)) != name", 3)
